@@ -51,6 +51,15 @@ def multi_error_programs(seed, count):
         names = ["s%d" % i for i in range(n)]
         sep = r.choice(["\n", "; ", "\n\n"])
         progs.append(sep.join("%s = %s" % (x, r.choice(broken)) for x in names) + sep + " + ".join(names))
+    # several parts of the program that cannot be inferred (unsolvable placeholders), several branches / operands of the wrong type,
+    # several unexpected symbols of different kinds: whatever is reported for them, it is reported the same way in every launch
+    progs.append("(x : _) => (y : _) => 1")
+    progs.append("(x : _) => (y : _) => (z : _) => (w : _) => x")
+    progs.append("f = (x : _) => 1; g = (y : _) => 2; h = (z : _) => (w : _) => 3; 4")
+    progs.append("(a : _) => (b : _) => (c : _) => (d : _) => (e : _) => (f : _) => 0")
+    progs.append("k = (p : _) => (q : _) => p\nm = (r : _) => (s : _) => (t : _) => s\n5")
+    progs.append("x = 1 + true; y = if 3 then 4 else 5; z = (2 : int); w = true < false; x")
+    progs.append("a = 1 $ 2 @ 3 ~ 4 ! 5 ? 6 ^ 7 & 8\nb = % | ` \\ '\na")
     progs.append("x = if true 1 else 2\ny = if false then 3 4\nx + y")
     progs.append("x : (if true int else bool) = (if false then 3 4); x")
     # nested: two groups each with several errors
